@@ -99,14 +99,14 @@ class Engine(EngineBase):
                 if rng.random() < 0.8:
                     ops.append(["init", -1])
             mix = ["open", "init", "init", "open_id", "update_cache", "restart", "lookup", "lookup",
-                   "drop", "rm_cache"]
+                   "drop", "rm_cache", "rm_workspace"]
         else:
             n = rng.randrange(10, 50 if tier == "quick" else 60)
             mix = (["open"] * 5 + ["open_id"] * 2 + ["init"] * 5 + ["doc_set"] * 4 + ["doc_del", "doc_reset"]
                    + ["file_write"] * 3 + ["file_del", "clear", "reset", "remove", "remove"]
                    + ["sp_set"] * 6 + ["sp_del"] * 2 + ["sp_nested"] * 2 + ["sp_assign"] * 2
                    + ["update_sp"] * 2 + ["move"] * 3 + ["clone"] * 3 + ["update_cache", "restart", "restart"]
-                   + ["drop", "copy", "copy", "deepcopy", "pickle", "init_project", "rm_cache"])
+                   + ["drop", "copy", "copy", "deepcopy", "pickle", "init_project", "rm_cache", "rm_workspace"])
             if rng.random() < (0.03 if tier == "quick" else 0.15):
                 mix += ["pickle_fresh"] * 2
             if P == "C03":
@@ -156,7 +156,7 @@ class Engine(EngineBase):
                 ops.append([k, h, sp, rng.choice(["sp", "statepoint"])])
             elif k == "update_sp":
                 ops.append([k, h, {rng.choice(KEYS): rng.choice(VALS)}, rng.random() < 0.5])
-            elif k in ("update_cache", "init_project", "rm_cache", "lookup"):
+            elif k in ("update_cache", "init_project", "rm_cache", "lookup", "rm_workspace"):
                 ops.append([k, pi])
             elif k == "restart":
                 ops.append([k])
@@ -952,6 +952,18 @@ class Run:
                 self.probe("rm_cache")
         self.cache_written[pi] = False
 
+    def op_rm_workspace(self, op):
+        """The (empty) workspace directory of a project without jobs is removed behind signac's back, as
+        after `rmdir workspace`: the project is then simply empty and the next init() recreates it."""
+        pi = op[1]
+        if self.model[pi] or self.decoys[pi] or self.emptydirs[pi]:
+            return
+        ws = os.path.join(self.pp[pi], "workspace")
+        with self.world.observing():
+            if os.path.isdir(ws) and not O.listdir(ws):
+                O.rmdir(ws)
+                self.probe("workspace_removed")
+
     def op_restart(self, op):
         self.handles = []
         self.projects = [self.signac.Project(self.spelled_path(i)) for i in range(2)]
@@ -1401,6 +1413,8 @@ class Run:
                                f"{tag}: cached_statepoint {csp} but the job's state point is {hd.sp}",
                                "C04:handle:cached_statepoint-stale-after-rekey")
             if mj is not None and not hd.doc_dead:
+                if not hd.doc_touched and self.sc.get("observe_handles", "all") == "lazy":
+                    continue  # nor the creation of the lazy document object
                 hd.doc_touched = True
                 try:
                     doc = hd.obj.document()
